@@ -258,8 +258,11 @@ PROPS = {
         explanation='BOUNDED small-scope exhaustive splits; proved: _body_read hands each part to markup.parse in order; the three post-delimiter '
                     'eaters are pinned down completely (result, exception, state) and the split-after-one-byte lemma holds over their specifications.',
         level_text='Bounded contract check (never counted as proved) for the whole statement; proved: functional contracts + split lemma of the '
-                   'post-delimiter eaters, match_tail (soundness, completeness, minimality of the reported partial-delimiter position) and the feeding '
-                   'obligation of _body_read. _eat_data / iter_markup / _eat_headers: bounded only.',
+                   'post-delimiter eaters, match_tail (soundness, completeness, minimality of the reported partial-delimiter position) together with '
+                   'the index table MatchTail.__init__ builds for it, the dispatcher HeadersEaeter.eat, the section emission with absolute '
+                   'offsets of iter_markup (relative to the eaters), and the feeding obligation of _body_read. The two searching eaters '
+                   '(_eat_data / _eat_start_boundary: block-wise delimiter search; _eat_headers: regular expression) are bounded only, so '
+                   'the level stays `other`.',
         level_note='Bounds are stated in coverage.bounded.bound.',
     ),
     'C07': dict(
